@@ -1031,6 +1031,32 @@ def run(ctx):
                 run_fields_case(ctx, k, var, vals, enc_pairs, (k.name, var.name, json.dumps(vals, sort_keys=True)))
         if not ctx.search_only and ctx.driver_ok and enc_pairs:
             ctx.correspond(f"{k.name}.enc", enc_pairs)
+        # rate-coded blocks: convert(new type) — used by the burst parser's clients (C01, C07)
+        if getattr(k, "rate", None) and not ctx.search_only and ctx.driver_ok:
+            cname, tname, members = k.rate
+            conv = []
+            var = k.variants[0]
+            for _ in range(ctx.budget(15, 600)):
+                vals = var.random_vals(ctx.rng)
+                p, err = call(var.build, vals)
+                if err:
+                    continue
+                for t2 in RATE_TYPES + ["undefined"]:
+                    q, err = call(p.convert, members[t2])
+                    if err:
+                        out = err
+                    else:
+                        e1, err = call(q.as_bits)
+                        out = err or f"ok {k.fmt(q)} {sbits(e1)}"
+                    conv.append((f"rate.convert {cname} {tname} {vals['data'] or '-'} {vals.get('dbsn', 0)} {vals.get('crc9', 0)} {vals.get('crc32', 0)} {t2}", out))
+                    ctx.case((k.name, "convert", json.dumps(vals, sort_keys=True), t2))
+                    # the property for convert: converting to the own type is the identity
+                    if t2 == tname and not err:
+                        d = diff_attrs(attrs(p), attrs(q))
+                        if d:
+                            ctx.fail("convert-own-type", {"kind": k.name, "variant": var.name, "mode": "fields", "fields": vals},
+                                     f"{k.name}: convert to the block's own type changes {d}")
+            ctx.correspond(f"{k.name}.convert", conv)
         # decode side
         dec_pairs = []
         n_bits = (ctx.budget(*k.n_bits) if k.n_bits else ctx.budget(3000, 100000)) if k.length is None or k.length > 8 else 256
@@ -1060,6 +1086,26 @@ def run(ctx):
             dec_pairs.append((k.dec_line(s), out))
         if not ctx.search_only and ctx.driver_ok and dec_pairs:
             ctx.correspond(f"{k.name}.dec", dec_pairs)
+        # wrong lengths: outside the property (no oracle), the model must reject what the code rejects
+        if not ctx.search_only and ctx.driver_ok:
+            wl = []
+            L = k.length or 96
+            for n in sorted({0, 1, L - 1, L + 1, L + 8, 36, 77, 96, 144, 192} - {L}):
+                if k.name == "dh" and n < 96:
+                    continue  # DataHeader.from_bits has no length check: model answers 'other' (documented)
+                for _ in range(2):
+                    b = k.bit_seeds(ctx.rng)
+                    b = (b + int2ba(ctx.rng.getrandbits(200), length=200))[:n] if n else bitarray()
+                    if k.name == "udp":
+                        b = int2ba(ctx.rng.getrandbits(n), length=n) if n else bitarray()
+                    o, err = call(k.from_bits, bitarray(b))
+                    if err:
+                        out = err
+                    else:
+                        e1, err = call(o.as_bits)
+                        out = err or f"ok {k.fmt(o)} {sbits(e1)}"
+                    wl.append((k.dec_line(sbits(b)), out))
+            ctx.correspond(f"{k.name}.dec(wrong length)", wl)
 
 
 def model_says(prop, line):
